@@ -19,6 +19,7 @@ THEOREMS = [
     "C16.node_returns_value",
     "C16.cli_exit_zero_iff", "C16.cli_exit_130_iff", "C16.cli_exit_one_iff", "C16.cli_final_event",
     "C16.cli_nothing_after_failure", "C16.cli_modes_agree",
+    "C16.spec_accepts_only_balanced", "C16.feed_balancedFrom", "C16.closes_of_balancedFrom",
     "Tc.runNode_sem", "Tc.feed_node", "Tc.feed_kids", "Tc.feed_top_ip", "Tc.feed_top_cli",
 ]
 LEAN_MODULES = ["TbotVerif.Props.C16"]
